@@ -82,6 +82,26 @@ CHECKS["C18"] = dict(
     note="Assumed: json.loads(json.dumps(j)) == j on JSON values (NaN excluded), uuid.UUID(str(u)) == u, importlib resolves module-level classes, "
          "user subclasses call super().to_json() and satisfy their own _from_json contract; all spot-validated natively on every run.",
 )
+CHECKS["C01"] = dict(
+    category="other",
+    technique="contract-based deductive verification: cover-contract step lemma per EQL operator (real _evaluate__ bodies executed symbolically with abstract children, contracts instantiated at call sites, z3 over uninterpreted sorts) + bounded oracle driver",
+    text="For AND, ElseIf, Union, Not, Comparator, Variable, Attribute/DomainMapping, the query descriptor (get_constrained_values, "
+         "sequential evaluate_selected_variables) and _process_result_ the real generator bodies are executed with abstract children that satisfy "
+         "the cover / value contract; per yield site Ext, Sound and Frame, over the yield clauses of all paths Complete and Unique are discharged "
+         "for any domain size and any nesting (structural induction over tree-shaped expressions). Level 'other': ForAll/Exists, "
+         "Index/Call/Flatten and whole-query composition are decided only by the bounded oracle driver (10k queries, 4 worlds), and one "
+         "known finding (Exists de-duplicates by the quantified variable's value) is listed.",
+    note="Assumed: children satisfy the contract (induction hypothesis), expressions are tree-shaped and role-consistent, user operators/attributes "
+         "are pure total functions, bindings dictionaries are abstract maps; == / != on two iterables excluded; z3 E-matching with seeded retries.",
+)
+CHECKS["C02"] = dict(
+    category="other",
+    technique="contract-based deductive verification: Unique + Complete clauses of the cover contract on the conjunctive/else-if fragment (same real code as C01) + optimize_or obligation + bounded multiset oracle driver",
+    text="Unique (no total assignment covered by two output occurrences) and Complete are discharged for AND, ElseIf, Not, Comparator, operands and the "
+         "query descriptor, for any domain size; optimize_or yields ElseIf exactly for sides over the same domain variables. The bounded driver "
+         "compares multisets of results with the satisfying assignments and the() with the count (thorough: 7.5k queries).",
+    note="Same assumptions as C01; multiplicity of whole queries with predicates is bounded-only.",
+)
 NOT_APPLICABLE = {
     "C05": "decided by SQLAlchemy/SQLite semantics acting on generated code; no krrood function body carries it, so no contract within reach can express it (DESIGN.md §4)",
 }
